@@ -195,6 +195,23 @@ def law_probes(chk: C.Check, r, rounds: int) -> int:
         e = r.choice([w for w in LAW_EXPRS if "|" not in w])   # with takes primitive expressions only
         both("with-binding-only-inside", pre + "{% with " + x + ": " + e + " %}{{ " + x + " }}{% endwith %}={{ " + x + " }}",
              pre + "{{ " + e + " }}={{ " + x + " }}")
+    # a macro defined inside a macro body is not callable by the caller, whatever the caller is
+    # (top level, rendered partial, included partial, macro body, block inside a loop): varying the
+    # inner macro's body leaves the caller's later output unchanged
+    for kind in ("top", "render", "include", "macro", "loop", "render-macro"):
+        outs = []
+        for inner in ("AAA", "BBB"):
+            core = ("{% macro outer %}{% macro helper %}" + inner + "{% endmacro %}o{% endmacro %}"
+                    "{% call outer %}|{% call helper %}")
+            ld = {"pp": core, "pm": "{% macro wrapm %}" + core + "{% endmacro %}{% call wrapm %}"}
+            src = {"top": core, "render": "{% render 'pp' %}", "include": "{% include 'pp' %}",
+                   "macro": "{% macro wrapm %}" + core + "{% endmacro %}{% call wrapm %}",
+                   "loop": "{% for q in (1..2) %}" + core + "{% endfor %}", "render-macro": "{% render 'pm' %}"}[kind]
+            outs.append((src, render(src, ld, {}), render_async(src, ld, {})))
+            n += 2
+        if outs[0][1:] != outs[1][1:] or outs[0][1] != outs[0][2]:
+            chk.finding("oracle:inner-macro-leaks-to-caller", f"caller kind {kind}: {outs}",
+                        {"kind": kind, "runs": [{"source": s_, "sync": a_, "async": b_} for s_, a_, b_ in outs]})
     return n
 
 
